@@ -50,10 +50,17 @@ type Scenario struct {
 	Follows    int  `json:"follows,omitempty"`
 	InsAt      int  `json:"ins_at,omitempty"`
 	InsKind    int  `json:"ins_kind,omitempty"`
-	MarkerPos  int  `json:"marker_pos,omitempty"` // where the peer's strict marker stands: 0 last, 1 first, 2 before ext-info, 3 between ext-info and the algorithms
-	Gex        Gex  `json:"gex"`
-	FragDen    int  `json:"frag_den"`
-	Switch     int  `json:"switch_den"`
+	MarkerPos  int  `json:"marker_pos,omitempty"`
+	// WrongRole: the scripted peer does not offer strict KEX but lists the
+	// marker of the other role (a server sending kex-strict-c-...): that is
+	// no offer, the connection is an ordinary non-strict one
+	WrongRole bool `json:"wrong_role,omitempty"`
+	// VerTail: bit 0 the client's, bit 1 the server's identification string
+	// ends in a blank (part of the string that goes into the exchange hash)
+	VerTail int `json:"ver_tail,omitempty"` // where the peer's strict marker stands: 0 last, 1 first, 2 before ext-info, 3 between ext-info and the algorithms
+	Gex     Gex `json:"gex"`
+	FragDen int `json:"frag_den"`
+	Switch  int `json:"switch_den"`
 }
 
 var hostKeys = []string{"ed25519", "ecdsa", "ecdsap384", "ecdsap521", "rsa"}
@@ -77,6 +84,9 @@ var gexBoundary = []uint32{0, 1, 1023, 1024, 1536, 2047, 2048, 2049, 3071, 3072,
 
 func genBase(r *rand.Rand) *Scenario {
 	s := &Scenario{Kex: pickKex(r), HostKey: hostKeys[r.IntN(len(hostKeys))], FragDen: []int{0, 3, 9}[r.IntN(3)], Switch: 2 + r.IntN(7)}
+	if r.IntN(6) == 0 {
+		s.VerTail = 1 + r.IntN(3)
+	}
 	if s.HostKey == "rsa" {
 		s.HostAlgo = []string{"", "ssh-rsa", "rsa-sha2-256", "rsa-sha2-512"}[r.IntN(4)]
 	}
@@ -100,7 +110,7 @@ func randomFault(r *rand.Rand) Op {
 	switch r.IntN(7) {
 	case 0, 1, 2:
 		op.Action = "insert"
-		op.Kind = []int{2, 4, 3, 192, 2, 4, 7, 5, 6, 50, 80, 21}[r.IntN(12)]
+		op.Kind = []int{2, 4, 3, 192, 2, 4, 7, 5, 6, 50, 80, 21, 30, 31, 34}[r.IntN(15)]
 	case 3:
 		op.Action = "dup"
 	case 4, 5:
@@ -200,7 +210,10 @@ func gen(r *rand.Rand, prop, tier string, index int) any {
 				s.Follows = 2
 			}
 		}
-		if r.IntN(2) == 0 {
+		if r.IntN(4) == 0 {
+			s.WrongRole = true
+		}
+		if !s.WrongRole && r.IntN(2) == 0 {
 			// the scripted peer offers strict KEX as well; most of these runs
 			// carry one insertion before its NEWKEYS
 			s.PeerStrict = true
@@ -238,6 +251,7 @@ var enumConfigs = []Scenario{
 
 var enumActions = []Op{
 	{Action: "insert", Kind: 2}, {Action: "insert", Kind: 4}, {Action: "insert", Kind: 3}, {Action: "insert", Kind: 192}, {Action: "insert", Kind: 7}, {Action: "insert", Kind: 5}, {Action: "insert", Kind: 80}, {Action: "dup"}, {Action: "delete"}, {Action: "swap"},
+	{Action: "insert", Kind: 30}, {Action: "insert", Kind: 31},
 }
 
 const invalidVariants = 24
@@ -360,11 +374,17 @@ func runHarness(c *core.Ctx, scn any) {
 			return false
 		}
 		r.atk.modifyVersion = func(op Op, line string) string {
-			switch op.Var % 3 {
+			switch op.Var % 6 {
 			case 0:
 				return line + " x"
 			case 1:
 				return line[:len(line)-1] + "~"
+			case 3:
+				return line + " " // a trailing blank is part of the identification string
+			case 4:
+				return line + "\t"
+			case 5:
+				return line + " \r"
 			default:
 				return strings.Replace(line, "Go", "go", 1)
 			}
@@ -427,6 +447,9 @@ func runHarness(c *core.Ctx, scn any) {
 	go func() {
 		rt.SetName("server")
 		conf := &ssh.ServerConfig{NoClientAuth: true, Config: cfg}
+		if s.VerTail&2 != 0 {
+			conf.ServerVersion = "SSH-2.0-verif_server comment " // ends in a blank
+		}
 		if s.Kind == "lying-signer" {
 			conf.AddHostKey(&lyingSigner{inner: signer.(ssh.AlgorithmSigner), honest: s.Honest})
 		} else {
@@ -454,6 +477,9 @@ func runHarness(c *core.Ctx, scn any) {
 
 	rt.SetName("client")
 	conf := &ssh.ClientConfig{User: "u", HostKeyCallback: ssh.FixedHostKey(signer.PublicKey()), Config: cfg}
+	if s.VerTail&1 != 0 {
+		conf.ClientVersion = "SSH-2.0-verif_client " // ends in a blank
+	}
 	if s.HostAlgo != "" {
 		conf.HostKeyAlgorithms = []string{s.HostAlgo}
 	}
